@@ -52,14 +52,16 @@ func seedUsers(c *runner.Ctx, d *mdb, n int) {
 	t := d.addTable("users", userCols, []string{"id"})
 	for i := 0; i < n; i++ {
 		var nick driver.Value
-		switch c.Choose(3, "nick") {
+		switch c.Choose(4, "nick") {
 		case 1:
 			nick = "x"
 		case 2:
-			nick = "y"
+			nick = "c"
+		case 3:
+			nick = "bc"
 		}
 		t.rows = append(t.rows, mrow{
-			"id": int64(i + 1), "org_id": int64(1 + c.Choose(2, "org")), "name": []string{"ann", "bob", "cy"}[c.Choose(3, "name")],
+			"id": int64(i + 1), "org_id": int64(1 + c.Choose(2, "org")), "name": []string{"ann", "bob", "a", "ab"}[c.Choose(4, "name")],
 			"nick": nick, "age": int64(20 + 10*c.Choose(2, "age")), "kind": []string{"k1", "k2"}[c.Choose(2, "kind")], "active": c.Choose(2, "active") == 1,
 		})
 		t.autoInc = int64(i + 1)
@@ -89,16 +91,18 @@ func genFilter(c *runner.Ctx, maxCols int) (sqlgen.Filter, string) {
 			x := int64(1 + c.Choose(2, "filter-org"))
 			v = []interface{}{x, int(x), &x}[rep]
 		case "name":
-			x := []string{"ann", "bob", "cy", "nobody"}[c.Choose(4, "filter-name")]
+			x := []string{"ann", "bob", "a", "ab", "nobody"}[c.Choose(5, "filter-name")]
 			v = []interface{}{x, &x, x}[rep]
 		case "nick":
-			switch c.Choose(3, "filter-nick") {
+			switch c.Choose(4, "filter-nick") {
 			case 0:
 				v = []interface{}{nil, (*string)(nil), nil}[rep]
 			case 1:
 				v = []interface{}{"x", strp("x"), "x"}[rep]
+			case 2:
+				v = []interface{}{"c", strp("c"), "c"}[rep]
 			default:
-				v = []interface{}{"y", strp("y"), "y"}[rep]
+				v = []interface{}{"bc", strp("bc"), "bc"}[rep]
 			}
 		case "age":
 			x := int32(20 + 10*c.Choose(2, "filter-age"))
